@@ -74,7 +74,7 @@ func payloadMarkers(c *Ctx, pa *provAnalysis, fr *Frame) map[string]bool {
 }
 
 func checkC01(c *Ctx, r *Report) {
-	r.Rules = []string{"D1 payload dispatch matrix (prepared type x packager)", "F1 header field provenance per entry class", "F1-body entry bodies read from the source and copied verbatim", "F1-only every payload member is written for a contents entry", "F2 default mode is stat &^ umask, explicit modes verbatim", "D2 directory / owner defaults", "parents for every entry (shared with C05)", "F1-link-verbatim symlink targets are plain reads of the entry's source", "plan-W1 plan entries and their file info are fresh copies (imported from C11)", "plan-G-*/O5-parents-clean path discipline of the planner (imported from C05)", "F2-perm a directory's mode taken from disk is reduced to its permission bits", "F2-stat default file info is taken with os.Stat (through links)", "fresh-T6-no-carried-state nothing on the packaging paths keeps results in package-level state (rule of C07)", "plan-K2c an occupant fails or is replaced (imported from C05)", "F2-symlink-nostat a symlink entry's source is not stat'ed", "plan-K6-sorted-search (imported from C05)"}
+	r.Rules = []string{"D1 payload dispatch matrix (prepared type x packager)", "F1 header field provenance per entry class", "F1-body entry bodies read from the source and copied verbatim", "F1-only every payload member is written for a contents entry", "F2 default mode is stat &^ umask, explicit modes verbatim", "D2 directory / owner defaults", "parents for every entry (shared with C05)", "F1-link-verbatim symlink targets are plain reads of the entry's source", "plan-W1 plan entries and their file info are fresh copies (imported from C11)", "plan-G-*/O5-parents-clean path discipline of the planner (imported from C05)", "F2-perm a directory's mode taken from disk is reduced to its permission bits", "F2-stat default file info is taken with os.Stat (through links)", "fresh-T6-no-carried-state nothing on the packaging paths keeps results in package-level state (rule of C07)", "plan-K2c an occupant fails or is replaced (imported from C05)", "F2-symlink-nostat a symlink entry's source is not stat'ed", "plan-K6-sorted-search (imported from C05)", "F1-mode-tag an rpm regular file's mode gets no constant combined into it"}
 	r.Explanation = "Structural necessary conditions of payload fidelity. (D1) each packager's payload writer — the function that loops over the prepared contents, branches on the entry type and writes archive headers named after destinations — is abstractly evaluated for every prepared entry type; the set of live mechanisms (directory header, link header, read of the entry's source, header written/added) is compared with the table transcribed from the statement: directories -> directory entry without reading a source (implied directories skipped in rpm only), symlinks -> link entry without reading a source, file and config types (and rpm's doc/licence/readme) -> source opened and an entry written, ghost -> header only, the deb changelog -> a generated member. (F1) for every tar header / rpm file record created for payload entries, the definitions that reach the write (flow-sensitive) must feed name from the destination, mode from the entry's mode (an explicit store over tar.FileInfoHeader's permission-only mode), owner from owner and group from group (not swapped), modification time from the entry's mtime, link target from the entry's source. (F1-body) every file opened or read under a path derived from a contents entry on the payload writer's call graph is named by the entry's source alone, and the bytes read reach an archive write, a copy into the archive or the rpm file body through conversions only (no slicing, limiting or rewriting step). (F1-only) every tar header write / rpm AddFile on the payload writer's call graph lies in the body of a loop that has loaded an element of the prepared contents, or in a function reached only from such loop bodies: the writer adds no member of its own. (F2) in the planner the mode taken from disk is stat-mode AND-NOT umask and is stored only when no mode is set. (D2) directory mode defaults to 0755 and owner/group to root. Equality of the bytes on disk at packaging time with what a later reader sees, glob results and concrete mode values are not decided."
 	r.Explanation += " (F1-link-verbatim) the target of every symlink member is a plain read of the entry's source. Imported: the plan's entries and their file info are fresh copies (C11 W1), and the planner's path discipline (C05 G-base, G-prefix, G-cutset, G-rooted, O5-parents-clean)."
 	r.Explanation += " (F2-perm) where the planner marks an entry a directory, the mode it takes from disk is <stat mode>.Perm() &^ umask. (F2-stat) the FileInfo whose mode/size/time become an entry's defaults comes from os.Stat, not os.Lstat. (fresh-T6) rule of C07 applied to payload selection: no package-level write on packaging paths (a memoised glob result would omit files added later)."
@@ -252,7 +252,7 @@ func checkPayloadHeaders(c *Ctx, r *Report, pk *Packager, w *ssa.Function, pa *p
 					init = true
 				}
 				for _, st := range defs {
-					out.add(pa.Of(st.Val))
+					out.add(h.provOf(pa, st))
 				}
 			}
 			return out, init
@@ -308,6 +308,22 @@ func checkPayloadHeaders(c *Ctx, r *Report, pk *Packager, w *ssa.Function, pa *p
 				}
 			}
 			r.Check(okBits, "F1-mode-bits", hk+" Mode keeps the special bits", c.instrPos(h.Create), whyBits)
+			if classes["FILE"] && len(classes) == 1 && h.Kind == "rpm" {
+				// rpmpack tells files, directories and links apart by the type
+				// bits of the mode: a regular file's mode gets no constant
+				// OR-ed in on the way (a mistyped S_ISUID is S_IFDIR)
+				okTag := ""
+				for _, u := range h.Uses {
+					defs, _ := h.reaching("Mode", u)
+					for _, st := range defs {
+						if w := orsConstantIn(c, h.valueOf(st), 0); w != "" {
+							okTag = fmt.Sprintf("the mode stored at %s %s", c.instrPos(st), w)
+						}
+					}
+				}
+				r.Check(okTag == "", "F1-mode-tag", hk+" Mode of a regular file carries no type bits of the packager's making", c.instrPos(h.Create),
+					okTag+": rpmpack (and rpm) classify the entry by these bits, so a file can be recorded as a directory - size 4096, no digest - while its body is still shipped")
+			}
 			check(ownerField, "FileInfo.Owner", "FileInfo.Group")
 			check(groupField, "FileInfo.Group", "FileInfo.Owner")
 		}
@@ -507,7 +523,21 @@ func checkPlannerDefaults(c *Ctx, r *Report) {
 				}
 				// every store from disk / default is guarded by "no mode set"
 				if _, isConst := st.Val.(*ssa.Const); isConst || isBinOp(st.Val) {
-					_, isAlloc := baseOfFileInfo(fa).(*ssa.Alloc)
+					base := baseOfFileInfo(fa)
+					_, isAlloc := base.(*ssa.Alloc)
+					if isAlloc {
+						// a fresh entry is exempt only if it cannot carry a declared
+						// mode yet: the function reads that entry's mode nowhere
+						forEachInstr(fn, func(i2 ssa.Instruction) {
+							ld, ok := i2.(*ssa.UnOp)
+							if !ok || ld.Op != token.MUL {
+								return
+							}
+							if fa2, ok := ld.X.(*ssa.FieldAddr); ok && fa2 != fa && fieldName(fa2.X.Type(), fa2.Field) == "Mode" && baseOfFileInfo(fa2) == base {
+								isAlloc = false
+							}
+						})
+					}
 					guarded := guardedByZeroMode(st) || isAlloc
 					r.Check(guarded, "F2", construct+": only when no mode is set", c.instrPos(st), "a defaulted or disk-derived mode may only be stored when the entry has no explicit mode (explicit modes are never masked)")
 				}
@@ -542,9 +572,41 @@ func checkPlannerDefaults(c *Ctx, r *Report) {
 			continue
 		}
 		nStat++
-		ev := cellEvaluator(c, typeSymlink, nil)
-		fr := ev.Explore(fn, make([]AV, len(fn.Params)))
-		live := fr == nil || fr.Live(stat.Block())
+		// live in the function itself - or, when the test of the entry's kind
+		// sits in the function that calls it, live from every such caller
+		var liveFrom func(root *ssa.Function, depth int) bool
+		liveFrom = func(root *ssa.Function, depth int) bool {
+			ev := cellEvaluator(c, typeSymlink, nil)
+			fr := ev.Explore(root, make([]AV, len(root.Params)))
+			if fr == nil {
+				return true
+			}
+			reached := false
+			for _, li := range fr.LiveInstrs() {
+				if li.In == ssa.Instruction(stat) {
+					reached = true
+				}
+			}
+			if !reached {
+				return false
+			}
+			var callers []*ssa.Function
+			for _, cs := range pa.callSites(root) {
+				if p := cs.Parent(); p != nil && c.funcPkgPath(p) == filesPath && p != root {
+					callers = append(callers, p)
+				}
+			}
+			if len(callers) == 0 || depth >= 2 {
+				return true
+			}
+			for _, p := range callers {
+				if liveFrom(p, depth+1) {
+					return true
+				}
+			}
+			return false
+		}
+		live := liveFrom(fn, 0)
 		r.Check(!live, "F2-symlink-nostat", "a symlink entry's source is not stat'ed in "+c.funcKey(fn), c.instrPos(stat),
 			"for an entry of type symlink the stat of its source is reachable: the source is the link's target, so the mode, size and kind of whatever that path names on the build host end up in the entry (deb then ships a directory instead of the link when the target is a directory there)")
 	}
@@ -882,4 +944,49 @@ func stripConv(v ssa.Value) ssa.Value {
 			return v
 		}
 	}
+}
+
+// orsConstantIn: v has a non-zero constant OR-ed (or added) into it, in place
+// or inside a module function it is the result of.
+func orsConstantIn(c *Ctx, v ssa.Value, d int) string {
+	if d > 8 || v == nil {
+		return ""
+	}
+	switch x := v.(type) {
+	case *ssa.Convert:
+		return orsConstantIn(c, x.X, d+1)
+	case *ssa.ChangeType:
+		return orsConstantIn(c, x.X, d+1)
+	case *ssa.BinOp:
+		if x.Op == token.OR || x.Op == token.ADD || x.Op == token.XOR {
+			for _, side := range []ssa.Value{x.X, x.Y} {
+				if k, ok := side.(*ssa.Const); ok && k.Value != nil && k.Int64() != 0 {
+					return fmt.Sprintf("has the constant %#o combined into it", k.Int64())
+				}
+			}
+		}
+		if w := orsConstantIn(c, x.X, d+1); w != "" {
+			return w
+		}
+		return orsConstantIn(c, x.Y, d+1)
+	case *ssa.Phi:
+		for _, e := range x.Edges {
+			if w := orsConstantIn(c, e, d+1); w != "" {
+				return w
+			}
+		}
+	case *ssa.Call:
+		sc := x.Call.StaticCallee()
+		if sc == nil || len(sc.Blocks) == 0 || !c.isModuleFunc(sc) || d > 3 {
+			return ""
+		}
+		for _, b := range sc.Blocks {
+			if ret, ok := b.Instrs[len(b.Instrs)-1].(*ssa.Return); ok && len(ret.Results) == 1 {
+				if w := orsConstantIn(c, ret.Results[0], d+2); w != "" {
+					return w + " (in " + c.funcKey(sc) + ")"
+				}
+			}
+		}
+	}
+	return ""
 }
